@@ -15,6 +15,7 @@ import TzVerif.Proofs.TzifReject
 import TzVerif.Proofs.TzifSound
 import TzVerif.Proofs.SrcEqTzString
 import TzVerif.Proofs.SrcEqTzFile
+import TzVerif.Generated.StableC08   -- per run: the current translation (SrcNow) equals the baseline (Src) these theorems are about
 
 namespace TzVerif.C08
 open TzVerif.Model TzVerif.Proofs
